@@ -7,6 +7,8 @@ package main
 
 import (
 	"encoding/json"
+	"os"
+	"os/exec"
 	"time"
 
 	"verifsim/simrt"
@@ -124,7 +126,73 @@ func exprCandidates(e *Expr) []*Expr {
 	return out
 }
 
+// raceHolds re-executes a candidate in a fresh -race process (race reports are
+// de-duplicated per process) and reports whether the detector fires again.
+func raceHolds(c *Violation) bool {
+	dir, err := os.MkdirTemp("", "verif-racemin-")
+	if err != nil {
+		return false
+	}
+	defer os.RemoveAll(dir)
+	vf := dir + "/v.json"
+	if writeJSON(vf, c) != nil {
+		return false
+	}
+	cmd := exec.Command(os.Args[0], "replay", "-file", vf, "-out", dir+"/res.json")
+	cmd.Env = append(os.Environ(), "GOMAXPROCS=1", "GORACE=log_path="+dir+"/race halt_on_error=0 exitcode=0 atexit_sleep_ms=0 history_size=4", "VERIF_RACELOG="+dir+"/race")
+	if err := cmd.Run(); err != nil {
+		return false
+	}
+	data, err := os.ReadFile(dir + "/res.json")
+	if err != nil {
+		return false
+	}
+	var res replayResult
+	if json.Unmarshal(data, &res) != nil {
+		return false
+	}
+	if res.Reproduced {
+		c.Detail = res.Detail
+		c.Fingerprint = res.Fingerprint
+	}
+	return res.Reproduced
+}
+
+// minimiseRace: structure-aware reduction only (drop tasks, calls, history,
+// inputs), one fresh process per candidate, small budget. The tape is left as
+// it is.
+func minimiseRace(v *Violation) *Violation {
+	cur := *v
+	deadline := time.Now().Add(90 * time.Second)
+	execs := 0
+	if !raceHolds(&cur) {
+		return v
+	}
+	for progress := true; progress && execs < 60 && time.Now().Before(deadline); {
+		progress = false
+		for _, cand := range engineCandidates(cur.Engine, cur.Workload) {
+			if execs >= 60 || !time.Now().Before(deadline) {
+				break
+			}
+			c := cur
+			c.Workload = cand
+			execs++
+			if raceHolds(&c) {
+				cur = c
+				progress = true
+				break
+			}
+		}
+	}
+	cur.Describe = engineDescribe(cur.Engine, cur.Workload)
+	cur.Minimised = true
+	return &cur
+}
+
 func minimiseViolation(v *Violation) *Violation {
+	if v.RaceReport != "" {
+		return minimiseRace(v)
+	}
 	bud := &minBudget{deadline: time.Now().Add(60 * time.Second)}
 	cur := *v
 	holds := func(c *Violation) bool {
